@@ -272,13 +272,15 @@ struct Outcome {
     states: Vec<u64>,
     counters: Vec<&'static str>,
     trace: Vec<Value>,
-    data_mismatch: bool,
+    /// first data mismatch seen while the model was still defined (observation, not a verdict)
+    data_mismatch: Option<String>,
+    data_mismatch_after_undefined: bool,
 }
 
 /// Run one history. `pair`: side 1 is a second real stream; otherwise side 1 does not exist and the
 /// harness is the raw peer of side 0.
 fn run_history(ops: &[Op], pair: bool, sa: Sched, sb: Sched, backpressure: Option<usize>) -> Outcome {
-    let mut out = Outcome { violation: None, states: vec![], counters: vec![], trace: vec![], data_mismatch: false };
+    let mut out = Outcome { violation: None, states: vec![], counters: vec![], trace: vec![], data_mismatch: None, data_mismatch_after_undefined: false };
     let (ea, eb, a2b, b2a) = pipe(sa, sb);
     let mk_side = |end: vmon::pipe::End, inbound: DirCtl, outbound: DirCtl| {
         let (stream, listener) = Stream::new(SharedEnd::new(end));
@@ -380,8 +382,12 @@ fn run_history(ops: &[Op], pair: bool, sa: Sched, sb: Sched, backpressure: Optio
                 }
                 let processed_during = sides[w].inbound.processed() - processed_before;
                 rec(&mut out, json!({"step": step, "op": format!("{op:?}"), "res": format!("{res:?}"), "model_before": format!("{before:?}"), "frames_processed_during": processed_during}));
-                if sides[w].rx_got >= usize::MAX / 2 {
-                    out.data_mismatch = true;
+                if sides[w].rx_got >= usize::MAX / 2 && out.data_mismatch.is_none() && !out.data_mismatch_after_undefined {
+                    if before.undefined {
+                        out.data_mismatch_after_undefined = true;
+                    } else {
+                        out.data_mismatch = Some(format!("step {step} {op:?} -> {res:?}"));
+                    }
                 }
                 if let Res::Err(io::ErrorKind::InvalidData) = res {
                     sides[w].model.undefined = true;
@@ -452,6 +458,18 @@ fn run_history(ops: &[Op], pair: bool, sa: Sched, sb: Sched, backpressure: Optio
                 let w = *w as usize;
                 if w >= sides.len() || sides[w].stream.is_none() {
                     continue;
+                }
+                if pair {
+                    // A byte pipe (unlike a message-oriented data channel) can hold a *partial* frame of the
+                    // dropped stream (back-pressure); the drop listener then writes its RESET frame through
+                    // its own framing right behind it, which tears the byte stream. What the peer decodes
+                    // afterwards is an artefact of the pipe model: only panics are judged on the peer then.
+                    let other = 1 - w;
+                    sides[other].inbound.refresh_from_log();
+                    if sides[other].inbound.parsed_log != sides[other].inbound.ctl.log().len() {
+                        sides[other].model.undefined = true;
+                        out.counters.push("torn_frame_at_drop");
+                    }
                 }
                 let r = catch(|| {
                     drop(sides[w].stream.take());
@@ -668,8 +686,17 @@ pub fn run(args: &Args) -> i32 {
         for s in &o.states {
             check.distinct("states_seen", *s);
         }
-        if o.data_mismatch {
+        if o.data_mismatch_after_undefined {
+            check.count("data_mismatch_after_malformed_input_or_eof", 1);
+        }
+        if let Some(d) = &o.data_mismatch {
             check.count("data_mismatch_observed", 1);
+            if check.counter("data_mismatch_observed") <= 3 {
+                check.note(
+                    &format!("data_mismatch_example_{}", check.counter("data_mismatch_observed")),
+                    json!({"mode": mode, "where": d, "ops": ops.iter().map(|o| format!("{o:?}")).collect::<Vec<_>>(), "setup": extra.clone(), "trace": o.trace.clone()}),
+                );
+            }
         }
         check.count(&format!("histories_{mode}"), 1);
         if nontrivial && check.want_sample() && ops.len() >= 4 {
